@@ -188,6 +188,9 @@ Fixpoint req_ok_gen (ponly : bool) (fuel : nat) (sc : schema) (m : string) (l : 
   end.
 
 Definition req_ok := req_ok_gen false.
+(* messages of the generated schema nest at most three deep (Block > BlockHeader > Hashes): four levels of the
+   required-field check reach every embedded message (EndToEnd.schema_depth_ok checks this on Gen.msgs) *)
+Definition req_depth : nat := 4.
 
 Inductive ures (A : Type) := UOk (a : A) | UErrWire (e : werr) | UErrRequired | UFuel.
 Arguments UOk {A} a.
@@ -198,7 +201,7 @@ Arguments UFuel {A}.
 (* proto.Unmarshal(b, new(M)) up to assembly *)
 Definition unmarshal_occs (sc : schema) (m : string) (b : bytes) : ures occs :=
   match dec_fields (List.length b) sc m b with
-  | WOk l => if req_ok (S (List.length b)) sc m l then UOk l else UErrRequired
+  | WOk l => if req_ok req_depth sc m l then UOk l else UErrRequired
   | WErr e => UErrWire e
   | WFuel => UFuel
   end.
